@@ -15,7 +15,7 @@ RULE = (
     "Generated tiny runcards (QCD order 1-3, methods iterate-exact / truncated / perturbative-exact, 2-3 point grids, "
     "scale variation none / expanded / exponentiated with xi^2 in {1/4, 4}, matching ratio 1 or drawn) whose mugrid holds "
     "a special target - exactly on a matching scale with the lower nf, exactly on it with the upper nf, or exactly at the "
-    "initial scale - plus the neighbours displaced by relative 1e-7 and 1e-6 into the same patch (same nf). Oracle: for "
+    "initial scale - plus the neighbours displaced by relative 1e-7 and 1e-6 into the same patch (same nf), and in half of the cases one more target beyond / before the wall listed before or after them (shared parts). Oracle: for "
     "each neighbour |E(mu) - E(mu(1+-eps))| <= 50 eps max|E| + 2 (stored integration errors of both), entry-wise. Only "
     "this upper bound is asserted. Non-trivial = scale variation active or a matching on the path; distinct by (order, "
     "method, sv, xif, where, nf0, direction)."
@@ -73,10 +73,19 @@ def strategy(tier):
             special = [wall, nft]
             neigh = [[wall * (1 + side * e), nft] for e in (1e-7, 1e-6)]
             init = [wall / f, nfl] if from_below else [wall * f, nfl + 1]
-        low = min([init[0], wall] + [n[0] for n in neigh]) * (min(xif, 1.0))
+        # other targets computed in the same run (before or after the special one), e.g. one whose path crosses the
+        # wall the special target sits on: parts are shared between targets, which must not change the result
+        extra = []
+        if draw(st.booleans()):
+            beyond = [wall * draw(st.floats(1.3, 2.0)), nfl + 1] if draw(st.booleans()) else [wall / draw(st.floats(1.3, 2.0)), nfl]
+            extra.append(beyond)
+        first = draw(st.booleans())
+        low = min([init[0], wall] + [n[0] for n in neigh] + [e[0] for e in extra]) * (min(xif, 1.0))
+        pts = [[float(special[0]), int(special[1])]] + [[float(m), int(n)] for m, n in neigh]
+        ext = [[float(m), int(n)] for m, n in extra]
         card = dict(
             order=[order, 0], init=[float(init[0]), int(init[1])],
-            mugrid=[[float(special[0]), int(special[1])]] + [[float(m), int(n)] for m, n in neigh],
+            mugrid=(ext + pts) if first else (pts + ext),
             masses=masses, ratios=ratios, ref=[float(low), ru.natural_nf(low, [m * q for m, q in zip(masses, ratios)])],
             alphas=draw(st.floats(0.18, 0.3)), xgrid=draw(st.sampled_from(([0.1, 1.0], [0.05, 0.4, 1.0], [0.01, 0.2, 0.6, 1.0]))),
             deg=1, method=draw(st.sampled_from(("iterate-exact", "truncated", "perturbative-exact"))), iters=2, max_order=[4, 0],
@@ -84,7 +93,7 @@ def strategy(tier):
         )
         if order == 3:
             card["xgrid"] = card["xgrid"][-2:] if len(card["xgrid"]) > 3 else card["xgrid"]
-        return {"where": where, "on_wall": bool(on_wall or where == "init"), "card": card}
+        return {"where": where, "on_wall": bool(on_wall or where == "init"), "card": card, "n_special": 0 if not (first and ext) else len(ext)}
 
     return build()
 
@@ -94,10 +103,12 @@ def check_case(case):
     card = case["card"]
     c = ru.full(card)
     nf0 = c["init"][1]
-    sp = c["mugrid"][0]
+    i0 = case.get("n_special", 0)
+    nn = 4 if case["where"] == "init" else 2
+    sp = c["mugrid"][i0]
     direction = "up" if sp[1] > nf0 else ("down" if sp[1] < nf0 else "same-nf")
     res.classes = [f"order={c['order'][0]}", f"sv={c['sv']}", f"where={case['where']}", f"dir={direction}",
-                   f"exactly-on-wall={case['on_wall']}"]
+                   f"exactly-on-wall={case['on_wall']}", f"co-targets={len(c['mugrid']) - 1 - nn}"]
     res.key = [c["order"], c["method"], c["sv"], c["xif"], case["where"], nf0, direction, case["on_wall"]]
     res.nontrivial = bool(c["sv"] is not None or sp[1] != nf0)
     try:
@@ -119,7 +130,7 @@ def check_case(case):
         return res
     E, dE = ref
     norm = float(np.max(np.abs(E)))
-    for pt in c["mugrid"][1:]:
+    for pt in c["mugrid"][i0 + 1 : i0 + 1 + nn]:
         got = get(pt)
         if got is None:
             res.fail(f"{ID}/missing", f"no operator for neighbour {pt}")
